@@ -321,9 +321,10 @@ impl FromStr for PartialDSym {
             for i in 0..spec.dim {
                 let ms_i = spec.m_spec.get(i).unwrap();
                 let mut k = 0;
+                let mut seen = vec![false; spec.size + 1];
 
                 for d in 1..=spec.size {
-                    if dsym.v(i, i + 1, d) == Some(0) {
+                    if !seen[d] {
                         let &m = ms_i.get(k)
                             .ok_or("incomplete degree spec".to_string())?;
                         let r = dsym.r(i, i + 1, d).unwrap(); 
@@ -332,6 +333,11 @@ impl FromStr for PartialDSym {
                         }
                         dsym.set_v(i, d, m / r);
                         k += 1;
+
+                        // one entry per orbit, also for an undefined degree 0
+                        for e in dsym.orbit([i, i + 1], d) {
+                            seen[e] = true;
+                        }
                     }
                 }
 
